@@ -545,7 +545,7 @@ def run_job(job):
         if guided is not None:
             rec['l2'] = {'steps': sum(1 for x in item['script'] if x.get('ev') or x.get('fire')),
                          'followed': guided.followed, 'skipped': guided.skipped}
-        if res.status != 'ok' or res.exc is not None:
+        if res.status != 'ok' or res.exc is not None or res.thread_errors:
             rec.update(detail=res.detail, waitmap=res.waitmap, exc=repr(res.exc) if res.exc is not None else None,
                        leftover=res.leftover, thread_errors=res.thread_errors)
             hangs.append(rec)
